@@ -292,6 +292,10 @@ def run_if(ctx, case):
     vs, then_defs, else_defs, live, outer = case
     assigned = set(then_defs) | set(else_defs)
     I, self, top, state = world(ctx, assigned, set(live))
+    # the defining module may happen to have GLOBALS named like the function's local variables: a local that is unassigned on one
+    # path is an unbound local in Python, never the global
+    if ctx.choose(2, "the module has globals named like the variables") == 1:
+        self.fields["globals"] = dict(self.fields.get("globals") or {}, **{v: 0.5 for v in vs})
     bind_outer(I, self, top, outer)
     # the `if` may sit inside a loop body / branch that re-binds the variables: the innermost binding is the current one
     nested = len(vs) <= 2 and bool(outer) and ctx.choose(2, "if nested in a scope that re-binds the outer variables") == 1
@@ -338,6 +342,11 @@ def s_if(ctx, k=2):
         return
     _, ifn, I, self = res
     ctx.cover("if.translated")
+    unbound = [v for v in D if (v not in then_defs or v not in else_defs) and v not in outer]
+    ctx.check("C02.converter.if.a_variable_unassigned_on_one_path_and_unbound_outside_is_refused", not unbound,
+              "C02: 'Programs outside the subset raise an exception when the decorator runs ... they never yield a malformed proto' / C01: 'either refused at "
+              "decoration time or translated faithfully' — a name assigned in the function is a local: unassigned on one path it is unbound there, a module "
+              "global of the same name must not be substituted")
     ok = len(ifn) == 1
     ctx.check("C01.converter.if.one_If_node", ok, CL_ALIGN)
     if not ok:
